@@ -55,6 +55,8 @@ Record elst := {
 Record egst := {
   kind : ekind; cap : N;    (* cap = event_id_max + 1 *)
   tcap : option N;          (* capacity of the trigger buffer *)
+  after_wait : N -> N;      (* trigger policy: tokens left by a successful wait on n > 0 tokens (model trigger: n - 1) *)
+  after_empty : N -> N;     (* trigger policy: tokens left by empty_buffer on n tokens (model trigger: 0) *)
   words : N -> N;           (* bit_set: 8-bit words; counting: one counter per id *)
   st : nst; trig : N;
   (* ghost *)
@@ -104,27 +106,27 @@ Definition set_li (l : elst) (p : list eop) (c : epc) (x : N) : elst :=
   {| prog := p; at_pc := c; ffull := ffull l; my_idx := x |}.
 
 Definition upd_real (g : egst) (ws : N -> N) (s : nst) (tr : N) : egst :=
-  {| kind := kind g; cap := cap g; tcap := tcap g; words := ws; st := s; trig := tr;
+  {| kind := kind g; cap := cap g; tcap := tcap g; after_wait := after_wait g; after_empty := after_empty g; words := ws; st := s; trig := tr;
      notified_total := notified_total g; delivered_total := delivered_total g; covered := covered g;
      done_idx := done_idx g; lost := lost g |}.
 
 (* the activation of id i takes effect (word already updated to ws) *)
 Definition activated (g : egst) (ws : N -> N) (i : N) (wrapped : bool) : egst :=
-  {| kind := kind g; cap := cap g; tcap := tcap g; words := ws; st := st g; trig := trig g;
+  {| kind := kind g; cap := cap g; tcap := tcap g; after_wait := after_wait g; after_empty := after_empty g; words := ws; st := st g; trig := trig g;
      notified_total := fupd (notified_total g) i (notified_total g i + 1);
      delivered_total := delivered_total g; covered := covered g; done_idx := done_idx g;
      lost := if wrapped then fupd (lost g) i (lost g i + 1) else lost g |}.
 
 (* notify(i) of a thread whose activation index is x returns Ok *)
 Definition returned (g : egst) (s : nst) (i x : N) : egst :=
-  {| kind := kind g; cap := cap g; tcap := tcap g; words := words g; st := s; trig := trig g;
+  {| kind := kind g; cap := cap g; tcap := tcap g; after_wait := after_wait g; after_empty := after_empty g; words := words g; st := s; trig := trig g;
      notified_total := notified_total g; delivered_total := delivered_total g; covered := covered g;
      done_idx := fupd (done_idx g) i (N.max (done_idx g i) x); lost := lost g |}.
 
 (* Drain step of word w *)
 Definition drained (g : egst) (w : N) : egst :=
   let k := kind g in
-  {| kind := k; cap := cap g; tcap := tcap g; words := fupd (words g) w 0; st := st g; trig := trig g;
+  {| kind := k; cap := cap g; tcap := tcap g; after_wait := after_wait g; after_empty := after_empty g; words := fupd (words g) w 0; st := st g; trig := trig g;
      notified_total := notified_total g;
      delivered_total := (fun j => if N.eqb (widx k j) w then delivered_total g j + pend k (words g) j else delivered_total g j);
      covered := (fun j => if N.eqb (widx k j) w then notified_total g j else covered g j);
@@ -212,14 +214,14 @@ Definition step (t : nat) (g : egst) (l : elst) : option (egst * elst * list ev)
          | _ => Some (g, set_l l (prog l) LStoreIdle,
                       [EAcc (wait_site m) B_TRIG 0 KFetchSub SeqCst SeqCst 0 0 false])
          end
-    else Some (upd_real g (words g) (st g) (trig g - 1), set_l l (prog l) LStoreIdle,
-               [EAcc (wait_site m) B_TRIG 0 KFetchSub SeqCst SeqCst (trig g) (trig g - 1) true])
+    else Some (upd_real g (words g) (st g) (after_wait g (trig g)), set_l l (prog l) LStoreIdle,
+               [EAcc (wait_site m) B_TRIG 0 KFetchSub SeqCst SeqCst (trig g) (after_wait g (trig g)) true])
   | LStoreIdle =>
     Some (upd_real g (words g) Idle (trig g), set_l l (prog l) LEmpty,
           [EAcc 64 B_STATE 0 KStore SeqCst SeqCst 0 0 true])
   | LEmpty =>
-    Some (upd_real g (words g) (st g) 0, set_l l (prog l) (LDrain 0 0),
-          [EAcc 65 B_TRIG 0 KSwap SeqCst SeqCst (trig g) 0 true])
+    Some (upd_real g (words g) (st g) (after_empty g (trig g)), set_l l (prog l) (LDrain 0 0),
+          [EAcc 65 B_TRIG 0 KSwap SeqCst SeqCst (trig g) (after_empty g (trig g)) true])
   | LDrain w total =>
     let v := words g w in
     let total' := total + rep_total (kind g) w v in
@@ -230,13 +232,21 @@ Definition step (t : nat) (g : egst) (l : elst) : option (egst * elst * list ev)
   end.
 
 Definition zero : N -> N := fun _ => 0.
-Definition g_init (k : ekind) (c : N) (tc : option N) : egst :=
-  {| kind := k; cap := c; tcap := tc; words := zero; st := Idle; trig := 0;
+(* trigger policies: the MODEL trigger of the G1 harness takes one token per wait and empties
+   completely; the real triggers take one..all per wait (semaphore and socket pair: all) and
+   may leave tokens in empty_buffer (unix datagram socket) *)
+Record tpolicy := { pol_wait : N -> N; pol_empty : N -> N }.
+Definition pol_model : tpolicy := {| pol_wait := fun n => n - 1; pol_empty := fun _ => 0 |}.
+Definition pol_take_all : tpolicy := {| pol_wait := fun _ => 0; pol_empty := fun _ => 0 |}.
+Definition pol_one_each : tpolicy := {| pol_wait := fun n => n - 1; pol_empty := fun n => n - 1 |}.
+
+Definition g_init (k : ekind) (c : N) (tc : option N) (po : tpolicy) : egst :=
+  {| kind := k; cap := c; tcap := tc; after_wait := pol_wait po; after_empty := pol_empty po; words := zero; st := Idle; trig := 0;
      notified_total := zero; delivered_total := zero; covered := zero; done_idx := zero; lost := zero |}.
 Definition l_init (p : list eop) (ff : bool) : elst := {| prog := p; at_pc := PIdle; ffull := ff; my_idx := 0 |}.
 (* thread 0 = listener with the waits lp; thread t+1 = notifier with the ids (np t) *)
-Definition init (k : ekind) (c : N) (tc : option N) (lp : list wmode) (np : nat -> list N) (ff : nat -> bool) : cfg egst elst :=
-  (g_init k c tc, fun t => match t with O => l_init (map OWait lp) false | S u => l_init (map ONotify (np u)) (ff u) end).
+Definition init (k : ekind) (c : N) (tc : option N) (po : tpolicy) (lp : list wmode) (np : nat -> list N) (ff : nat -> bool) : cfg egst elst :=
+  (g_init k c tc po, fun t => match t with O => l_init (map OWait lp) false | S u => l_init (map ONotify (np u)) (ff u) end).
 
 (* ---- the statements the property talks about, as predicates on configurations ---- *)
 Definition listener_pc (c : cfg egst elst) : epc := at_pc (snd c O).
